@@ -429,6 +429,22 @@ class Escapes:
                 if isinstance(t, (ast.Tuple, ast.List)) and isinstance(n.value, ast.Call) and call_attr(n.value) == 'split' \
                         and not any(isinstance(e, ast.Starred) for e in t.elts):
                     yield n, ['ValueError'], self.site(f, n, self.kind(n))
+                # an item store on an object of a package class that defines __setitem__ runs that method (HeaderDict validates what it is given)
+                for tt in n.targets:
+                    if isinstance(tt, ast.Subscript):
+                        kls = None
+                        d0 = dotted(tt.value) or ''
+                        if d0.startswith('self.') and d0.count('.') == 1:
+                            kls = self.attr_class(f, d0.split('.')[1])
+                        elif isinstance(tt.value, ast.Name) and f.rd.is_local(tt.value.id):
+                            ns_ = f.cfg.node_of_stmt(n)
+                            for dd in (f.rd.at(ns_[0], tt.value.id) if ns_ else []):
+                                if dd.kind == 'assign' and isinstance(dd.value, ast.Call):
+                                    kls = self.class_of(f, dotted(dd.value.func) or '') or kls
+                        if kls is not None:
+                            for m in self.methods_named(kls, '__setitem__'):
+                                for (cname, origin) in self.escapes(m):
+                                    yield n, [cname], origin
             elif isinstance(n, ast.Attribute) and isinstance(n.ctx, ast.Load) and isinstance(n.value, ast.Name) and n.value.id == 'self' \
                     and not (isinstance(getattr(n, '_p', None), ast.Call) and n._p.func is n):
                 # property / cache_in getter evaluated by an attribute load
